@@ -4061,6 +4061,29 @@ class UDFFileEntry:
         self.desc_tag.tag_location = tag_location
         self.unique_id = new_location
 
+    def check_file_ident_desc(self, new_fi_desc):
+        # type: (UDFFileIdentifierDescriptor) -> None
+        """
+        Check that a new UDF File Identifier Descriptor can be added to this
+        UDF File Entry.  This raises what add_file_ident_desc() would raise
+        for it, but it never changes anything.
+
+        Parameters:
+         new_fi_desc - The new UDF File Identifier Descriptor to check.
+        Returns:
+         Nothing.
+        """
+        if not self._initialized:
+            raise pycdlibexception.PyCdlibInternalError('UDF File Entry not initialized')
+
+        if self.icb_tag.file_type != 4:
+            raise pycdlibexception.PyCdlibInvalidInput('Can only add a UDF File Identifier to a directory')
+
+        if not new_fi_desc.is_parent():
+            for fi_desc in self.fi_descs:
+                if not fi_desc.is_parent() and fi_desc.fi == new_fi_desc.fi:
+                    raise pycdlibexception.PyCdlibInvalidInput('Failed adding duplicate name to parent')
+
     def add_file_ident_desc(self, new_fi_desc, logical_block_size):
         # type: (UDFFileIdentifierDescriptor, int) -> int
         """
@@ -4073,16 +4096,7 @@ class UDFFileEntry:
         Returns:
          The number of extents added due to adding this File Identifier Descriptor.
         """
-        if not self._initialized:
-            raise pycdlibexception.PyCdlibInternalError('UDF File Entry not initialized')
-
-        if self.icb_tag.file_type != 4:
-            raise pycdlibexception.PyCdlibInvalidInput('Can only add a UDF File Identifier to a directory')
-
-        if not new_fi_desc.is_parent():
-            for fi_desc in self.fi_descs:
-                if not fi_desc.is_parent() and fi_desc.fi == new_fi_desc.fi:
-                    raise pycdlibexception.PyCdlibInvalidInput('Failed adding duplicate name to parent')
+        self.check_file_ident_desc(new_fi_desc)
 
         self.fi_descs.append(new_fi_desc)
 
